@@ -12,7 +12,8 @@
 (* are the transcriptions of ZPackOps (validated against the code by C07). *)
 (*                                                                         *)
 (* One action per real operation, made through a Connection (c1):          *)
-(*   CreateBlob Rewrite Append ConsumeFile ModifyP      Blob / object API  *)
+(*   CreateBlob Rewrite Append ConsumeFile ConsumeFail   Blob / object API  *)
+(*   ModifyP                                                               *)
 (*   Savepoint Rollback AbortTxn                        transaction API    *)
 (*   TpcBegin  StoreOK | StoreFail  Vote  Finish        Connection.tpc_*   *)
 (*   ConnAbort TpcAbort                                 Connection.abort,  *)
@@ -231,6 +232,15 @@ ConsumeFile(b, x) ==
   /\ Idle /\ b \in Blobs
   /\ LET c == Touch(con) IN Viewable(c, b) /\ con' = Change(c, b, <<x>>, <<x>>)
   /\ res' = OK("consume")
+  /\ UNCHANGED nextb /\ SameStore /\ DerivedCon
+
+\* blob.consumeFile(path) with a source that cannot be consumed (no such file): the call raises and its error
+\* handler leaves the blob as it was - a working copy that was moved aside is moved back AND stays attached,
+\* without one nothing is attached and the object is not registered
+ConsumeFail(b) ==
+  /\ Idle /\ b \in Blobs
+  /\ LET c == Touch(con) IN Viewable(c, b) /\ con' = [c EXCEPT !.touched = @ \cup {b}]
+  /\ res' = Out("consume", "FileNotFoundError")
   /\ UNCHANGED nextb /\ SameStore /\ DerivedCon
 
 ModifyP(v) ==
@@ -591,6 +601,7 @@ Next ==
   \/ \E b \in Blobs, x \in Atoms : Rewrite(b, x)
   \/ \E b \in Blobs, x \in Atoms : Append_(b, x)
   \/ \E b \in Blobs, x \in Atoms : ConsumeFile(b, x)
+  \/ \E b \in Blobs : ConsumeFail(b)
   \/ \E v \in PVals : ModifyP(v)
   \/ Savepoint
   \/ \E k \in 1..MaxSp : Rollback(k)
@@ -613,11 +624,14 @@ RewriteQ(b, x) == NoCopy(b) /\ (FewEdits \/ b \in Range(con.reg)) /\ Rewrite(b, 
 AppendQ(b, x) == (FewEdits \/ b \in Range(con.reg) \/ b \in con.newb) /\ Append_(b, x)
 ConsumeFileQ(b, x) == NoCopy(b) /\ (FewEdits \/ b \in Range(con.reg)) /\ ConsumeFile(b, x)
 ModifyPQ(v) == con.pval = <<>> /\ FewEdits /\ ModifyP(v)
+\* a failing consumeFile matters after a change of the blob (once), or as the first call on it
+ConsumeFailQ(b) == res.call # "consume" /\ (b \in DOMAIN con.work \/ b \notin con.touched) /\ ConsumeFail(b)
 EditQ ==
   \/ \E b \in Blobs, c0 \in Contents1 : CreateBlobQ(b, c0)
   \/ \E b \in Blobs, x \in Atoms : RewriteQ(b, x)
   \/ \E b \in Blobs, x \in Atoms : AppendQ(b, x)
   \/ \E b \in Blobs, x \in Atoms : ConsumeFileQ(b, x)
+  \/ \E b \in Blobs : ConsumeFailQ(b)
   \/ \E v \in PVals : ModifyPQ(v)
 Tpc == TpcBegin \/ StoreOK \/ StoreFail \/ Vote \/ Finish
 AbortPath == ConnAbort \/ TpcAbort
